@@ -20,7 +20,9 @@ class HE(Exception):
 
 
 def passes(flt: str, n: int) -> bool:
-    return {"all": True, "none": True, "even": n % 2 == 0, "nonepass": False, "falsy-even": n % 2 == 0}[flt]
+    # ("toggle" is a STATEFUL filter, used by wait_event programs only: it accepts on its 1st, 3rd, ... call - consulted once per
+    # event, it accepts the first event it is shown)
+    return {"all": True, "none": True, "even": n % 2 == 0, "nonepass": False, "falsy-even": n % 2 == 0, "toggle": True}[flt]
 
 
 class C10(E1Check):
@@ -77,7 +79,7 @@ class C10(E1Check):
                 progs.append({"plan": plan, "subs": [dict(a, q=1), dict(b, q=2)], "wait": None})
         # wait_event
         for plan in plans:
-            for flt in ("all", "even", "nonepass", "falsy-even"):
+            for flt in ("all", "even", "nonepass", "falsy-even", "toggle"):
                 for ss in sigsets:
                     progs.append({"plan": plan, "subs": [], "wait": {"sigs": ss, "filter": flt}})
                     progs.append({"plan": plan, "subs": [{"sigs": "a0", "filter": "all", "k": 1, "leave": "exit", "q": 1}], "wait": {"sigs": ss, "filter": flt}})
@@ -295,9 +297,14 @@ class C10(E1Check):
             if flt == "none":
                 return None
 
+            calls = {"n": 0}
+
             def f(ev: Any) -> bool:
                 st["pulled"][idx] = st["pulled"].get(idx, 0) + 1
                 log("pulled", idx, ev.n)
+                if flt == "toggle":
+                    calls["n"] += 1
+                    return calls["n"] % 2 == 1
                 return passes(flt, ev.n)
 
             if flt == "falsy-even":
